@@ -17,7 +17,7 @@ from .. import au, pat
 from .common import *  # noqa
 from .common import key_of, union, isinstance_handled, noreturn_set, decorated_classes
 from .shared import path_conditions, enclosing
-from . import c01
+from . import c01, shared
 
 
 def check(repo: Repo, R) -> None:
@@ -278,7 +278,7 @@ def sliceable_kinds(repo: Repo, R):
     handled = isinstance_handled(repo, fw)
     conn = set(union(repo, F_CONNECT, "Connectable"))
     missing = sorted(conn - handled)
-    falls = au.raises(fw.node.body, noreturn_set(repo))
+    falls = au.default_raises(fw.node.body, noreturn_set(repo))
     R.check(not missing and falls, rule, key_of(fw), fw.site,
             f"width() dispatches over {sorted(handled)}; Connectable = {sorted(conn)}" + (f"; MISSING {missing}" if missing else "") + f"; falls through to a failure: {falls}",
             why="width() returns None for a connectable kind, and width comparisons silently pass")
@@ -313,10 +313,7 @@ def concat_width(repo: Repo, R):
 def slice_entry(repo: Repo, R):
     rule = "C03.8-index-entry"
     fs = repo.func(F_SLICEABLE, "_slice")
-    tchk = False
-    for n in au.walk_no_nested(fs.node):
-        if isinstance(n, ast.If) and au.raises(n.body) and "isinstance(index, (int, slice))" in ast.unparse(n.test) and ast.unparse(n.test).startswith("not"):
-            tchk = True
+    tchk = shared.fails_unless(fs.node, "isinstance(index, (int, slice))") is not None
     reg = bool(pat.find("parent._slices.add($S)", fs.node))
     mk = bool(pat.find("Slice(parent=parent, index=index)", fs.node))
     R.check(tchk and reg and mk, rule, key_of(fs), fs.site,
@@ -324,5 +321,5 @@ def slice_entry(repo: Repo, R):
             why="a slice of a port reference is not re-parented when the reference resolves, and is exported against the reference")
     ci = repo.cls(F_SLICE, "Slice")
     pi = ci.methods.get("__post_init__")
-    ok = pi is not None and any(isinstance(n, ast.If) and "is_sliceable(self.parent)" in ast.unparse(n.test) and au.raises(n.body) for n in au.walk_no_nested(pi.node))
+    ok = pi is not None and shared.fails_unless(pi.node, "is_sliceable(self.parent)") is not None
     R.check(ok, rule, key_of(pi) if pi else f"{F_SLICE}::Slice", ci.site, f"Slice() rejects non-sliceable parents: {ok}", why="a slice of a bundle instance or no-connect is accepted")
